@@ -59,27 +59,28 @@ def judge(case, obs):
     if not addr.startswith(digits.lower()):
         return v.bad("C18/%s/address-lacks-prefix" % xm["cls"],
                      "printed phrase's account %s is 0x%s, which does not start with %s" % (eth.format_path(comps), addr, P))
-    # provenance: which thread was served this entropy, and was it that thread's last buffer?
+    # which thread was served this entropy (coverage classes only: where the entropy comes from is C12's subject, and a search
+    # that fetches ahead or in pieces still holds this property)
     E = [r for r in o.get("entropy", []) if r["tag"] == "E" and r["ret"] == 0]
     if E:
-        owners = [r for r in E if r["bytes"] == ent.hex()]
-        if not owners:
-            return v.bad("C18/%s/entropy-not-served" % xm["cls"], "printed phrase encodes %s which the entropy source never served" % ent.hex())
-        w = owners[0]
-        mine = [r for r in E if r["thread"] == w["thread"]]
-        if mine[-1]["seq"] != w["seq"]:
-            v.bad("C18/%s/not-last-buffer" % xm["cls"], "thread %d requested more entropy after the buffer it won with" % w["thread"])
-        attempts = len(mine)
-        j = xm["j"]
-        if w["thread"] != 0:
-            v.bucket("winner-is-a-worker-thread")
-        if j == 16:
-            v.bucket("winner-j16-ordinal-%d" % w["thread"])
-        if j == 64:
-            v.bucket("j64-winner-ordinal>16" if w["thread"] > 16 else "j64-winner-ordinal<=16")
-        if attempts >= 2:
-            v.bucket("match-after>=2-attempts")
-        v.bucket("attempts-to-win-%s" % ("1" if attempts == 1 else "2-9" if attempts < 10 else "10-99" if attempts < 100 else "100+"))
+        from ..run.core import attribute_entropy
+        w = attribute_entropy(ent.hex(), E)
+        if w is None:
+            v.bucket("winner-not-attributable-to-a-thread")
+        else:
+            if w["last"] != w["count"] - 1:
+                v.bucket("winner-requested-more-after-winning")
+            attempts = w["last"] + 1
+            j = xm["j"]
+            if w["thread"] != 0:
+                v.bucket("winner-is-a-worker-thread")
+            if j == 16:
+                v.bucket("winner-j16-ordinal-%d" % w["thread"])
+            if j == 64:
+                v.bucket("j64-winner-ordinal>16" if w["thread"] > 16 else "j64-winner-ordinal<=16")
+            if attempts >= 2:
+                v.bucket("match-after>=2-attempts")
+            v.bucket("attempts-to-win-%s" % ("1" if attempts == 1 else "2-9" if attempts < 10 else "10-99" if attempts < 100 else "100+"))
     else:
         v.bucket("no-entropy-call-seen-by-interposer")
     # coverage classes
